@@ -33,18 +33,23 @@ Definition mk_pack (p : bool * option (Z * Z) * option (Z * Z)) : pack :=
 
 Definition packspec := (bool * option (Z * Z) * option (Z * Z))%type.
 
-(* the file system of a case: (file, variable, shape, type, packing, flat stored values) *)
-Definition mk_disk (vars : list (Z * Z * list nat * Z * packspec * list (option Z))) : disk :=
-  lookup2 (map (fun x => let '(f, v, sh, ty, p, fl) := x in
-                         (f, v, {| s_dt := dt_of_code ty; s_pack := mk_pack p; s_raw := reshape sh fl |})) vars).
+(* the file system of a case: (file, variable, shape, type, packing, fill value, flat stored values) *)
+Definition mk_disk (vars : list (Z * Z * list nat * Z * packspec * Z * list (option Z))) : disk :=
+  lookup2 (map (fun x => let '(f, v, sh, ty, p, fill, fl) := x in
+                         (f, v, {| s_dt := dt_of_code ty; s_pack := mk_pack p; s_raw := reshape sh fl;
+                                   s_fill := fill |})) vars).
 
-(* 0: the current code; 1: before C12-fix-1; 2: before C12-fix2-1 *)
+Definition mk_flags (mu : bool * bool) : flags := {| fl_mask := fst mu; fl_unpack := snd mu |}.
+
+(* 0: the current code; 1: before C12-fix-1; 2: before C12-fix2-1;
+   3: the seeded H5netcdfArray.__init__ (unpack copied from mask) *)
 Definition pick (h5 : bool) (old : Z) : cfg :=
   match h5, old with
   | false, 1 => cfg_nc4_old
   | true, 1 => cfg_h5_old
   | false, 2 => cfg_nc4_old2
   | true, 2 => cfg_h5_old2
+  | true, 3 => cfg_h5_swap
   | false, _ => cfg_nc4
   | true, _ => cfg_h5
   end.
@@ -53,9 +58,9 @@ Definition pick (h5 : bool) (old : Z) : cfg :=
    after read) is the one the model's reader gives a data variable *)
 Definition declared_ok (C : cfg) (dk : disk) (h : list cell) : bool :=
   forallb (fun c => match c with
-                    | OnDisk f v _ d =>
+                    | OnDisk f v _ d fl =>
                       match dk f v with
-                      | Some st => dt_eqb d (c_declare C true (s_dt st) (s_pack st))
+                      | Some st => dt_eqb d (c_declare C true (fl_unpack fl) (s_dt st) (s_pack st))
                       | None => true
                       end
                     | InMem _ _ _ => true
@@ -66,7 +71,7 @@ Definition declared_ok (C : cfg) (dk : disk) (h : list cell) : bool :=
    operations, and what the implementation showed for each operation (result,
    open/fetch/close events). *)
 Definition check_ops_cfg (old : Z)
-  (c : list (Z * Z * list nat * Z * packspec * list (option Z)) * list cell * bool * list op * list (obs * trace)) : bool :=
+  (c : list (Z * Z * list nat * Z * packspec * Z * list (option Z)) * list cell * bool * list op * list (obs * trace)) : bool :=
   let '(vars, h, h5, ops, observed) := c in
   declared_ok (pick h5 old) (mk_disk vars) h &&
   list_eqb step_eqb (run (pick h5 old) (mk_disk vars) h ops) observed.
@@ -74,6 +79,7 @@ Definition check_ops_cfg (old : Z)
 Definition check_ops := check_ops_cfg 0.
 Definition check_ops_old := check_ops_cfg 1.
 Definition check_ops_old2 := check_ops_cfg 2.
+Definition check_ops_swap := check_ops_cfg 3.
 
 (* sorted list of distinct variable numbers *)
 Fixpoint insert_z (x : Z) (l : list Z) : list Z :=
@@ -95,27 +101,45 @@ Definition dtypes_after_read (ds : list vdesc) (cs : list cell) : list (Z * Z) :
    fetched while reading, the set whose Data is in memory afterwards, and
    Data.dtype straight after read for every variable that has a Data object. *)
 Definition check_read_cfg (old : Z)
-  (c : list (Z * list Z * role * Z * packspec) * bool * list Z * list Z * list (Z * Z)) : bool :=
-  let '(vars, h5, fetched, inmem, dtypes) := c in
+  (c : list (Z * list Z * role * Z * packspec) * bool * (bool * bool) * list Z * list Z * list (Z * Z)) : bool :=
+  let '(vars, h5, mu, fetched, inmem, dtypes) := c in
   let ds := map (fun x => let '(v, sh, r, _, _) := x in {| vd_var := v; vd_shape := sh; vd_role := r |}) vars in
   let dk : disk := fun _ v =>
      match find (fun x => let '(v', _, _, _, _) := x in v' =? v) vars with
      | Some (_, sh, _, ty, p) =>
        Some {| s_dt := dt_of_code ty; s_pack := mk_pack p;
                s_raw := reshape (map Z.to_nat sh)
-                                (repeat (Some 0) (fold_right Nat.mul 1%nat (map Z.to_nat sh))) |}
+                                (repeat (Some 0) (fold_right Nat.mul 1%nat (map Z.to_nat sh)));
+               s_fill := 0 |}
      | None => None
      end in
-  let (cs, t) := read (pick h5 old) dk 0 ds in
+  let (cs, t) := read (pick h5 old) dk 0 (mk_flags mu) ds in
   list_eqb Z.eqb (sort_z (fetched_vars t)) fetched &&
   list_eqb Z.eqb (sort_z (in_memory_vars ds cs)) inmem &&
   forallb (fun o => existsb (fun m => (fst o =? fst m) && (snd o =? snd m)) (dtypes_after_read ds cs)) dtypes &&
   match scan [] t with Some [] => true | _ => false end.
+
+(* only the data types declared after a read with the given options *)
+Definition check_read_dtypes
+  (c : list (Z * list Z * role * Z * packspec) * bool * (bool * bool) * list Z * list Z * list (Z * Z)) : bool :=
+  let '(vars, h5, mu, _, _, dtypes) := c in
+  let ds := map (fun x => let '(v, sh, r, _, _) := x in {| vd_var := v; vd_shape := sh; vd_role := r |}) vars in
+  let dk : disk := fun _ v =>
+     match find (fun x => let '(v', _, _, _, _) := x in v' =? v) vars with
+     | Some (_, sh, _, ty, p) =>
+       Some {| s_dt := dt_of_code ty; s_pack := mk_pack p;
+               s_raw := reshape (map Z.to_nat sh)
+                                (repeat (Some 0) (fold_right Nat.mul 1%nat (map Z.to_nat sh)));
+               s_fill := 0 |}
+     | None => None
+     end in
+  let (cs, t) := read (pick h5 0) dk 0 (mk_flags mu) ds in
+  forallb (fun o => existsb (fun m => (fst o =? fst m) && (snd o =? snd m)) (dtypes_after_read ds cs)) dtypes.
 
 Definition check_read := check_read_cfg 0.
 Definition check_read_old2 := check_read_cfg 2.
 
 (* the types of the literals, so that a shard whose lists all happen to be empty still type-checks *)
 Definition ops_case :=
-  (list (Z * Z * list nat * Z * packspec * list (option Z)) * list cell * bool * list op * list (obs * trace))%type.
-Definition read_case := (list (Z * list Z * role * Z * packspec) * bool * list Z * list Z * list (Z * Z))%type.
+  (list (Z * Z * list nat * Z * packspec * Z * list (option Z)) * list cell * bool * list op * list (obs * trace))%type.
+Definition read_case := (list (Z * list Z * role * Z * packspec) * bool * (bool * bool) * list Z * list Z * list (Z * Z))%type.
